@@ -124,7 +124,7 @@ def build_structure(world, config, names, latents=()):
     return m
 
 
-def compare_cpds(ctx, cpds, names, world, want_fn, what, tol=dict(atol=1e-9, rtol=1e-7)):
+def compare_cpds(ctx, cpds, names, world, want_fn, what, tol=dict(atol=1e-9, rtol=1e-7), only=None):
     """cpds: iterable of TabularCPD; want_fn(v) -> (scope sorted, array)."""
     n = world["n"]
     seen = set()
@@ -146,8 +146,8 @@ def compare_cpds(ctx, cpds, names, world, want_fn, what, tol=dict(atol=1e-9, rto
             ctx.fail("closed_form", f"{PROP}:values:{what}", {"var": v, "parents": world["parents"][v], "card": world["card"], "got": arr.round(6).tolist(),
                                                               "want": np.asarray(want).round(6).tolist()})
             ok = False
-    if seen != set(range(n)):
-        ctx.fail("structure", f"{PROP}:missing_cpd:{what}", {"missing": sorted(set(range(n)) - seen)})
+    if seen != (set(range(n)) if only is None else set(only)):
+        ctx.fail("structure", f"{PROP}:missing_cpd:{what}", {"missing": sorted((set(range(n)) if only is None else set(only)) - seen)})
         ok = False
     return ok
 
@@ -277,6 +277,31 @@ def _fit_op(case, ctx, op):
                 ctx.fail("validates", f"{PROP}:check_model_false:{what}", "check_model returned a non-True value")
         except Exception as e:
             ctx.fail("validates", f"{PROP}:fitted_model_invalid:{what}:{type(e).__name__}", exc_brief(e))
+    if ok and op.get("weighted") and sn is not None:
+        # ONE estimator object asked for the same node without and with the row weights, in both orders (a user sweeping options)
+        from pgmpy.estimators import BayesianEstimator, MaximumLikelihoodEstimator
+
+        Est = MaximumLikelihoodEstimator if op["op"] == "mle" else BayesianEstimator
+        ekw = {}
+        if op["op"] == "bayes":
+            ekw["prior_type"] = op["prior"]
+            if op["prior"] == "BDeu":
+                ekw["equivalent_sample_size"] = op["ess"]
+            if op["prior"] == "dirichlet":
+                ekw["pseudo_counts"] = op["pseudo_scalar"]
+        if not (op["op"] == "bayes" and op["prior"] == "dirichlet" and op["pseudo"] != "scalar"):
+            ctx.fault("object_history")
+            est = Est(build_structure(w2, config, names), df, state_names=sn)
+            want_u = _want_fn(op, w2, rows2, [1.0] * len(rows2))
+            v_ = max(range(w2["n"]), key=lambda u: (len(w2["parents"][u]), -u))
+            order = [False, True] if op["jobseed"] % 2 else [True, False]
+            try:
+                for flag in order + order[:1]:
+                    cpd = est.estimate_cpd(names.L(v_), weighted=flag, **ekw)
+                    if not compare_cpds(ctx, [cpd], names, w2, (want if flag else want_u), what + (":reused_estimator:weighted" if flag else ":reused_estimator:unweighted"), only=[v_]):
+                        break
+            except Exception as e:
+                ctx.fail("succeeds", f"{PROP}:raise:{what}:reused_estimator:{type(e).__name__}:{exc_site(e)}", exc_brief(e))
     if ok and op.get("permute"):
         # invariance to row order, column order, edge insertion order
         rp = random.Random(op["permseed"])
